@@ -143,7 +143,15 @@ def run(ctx: Ctx):
         cases.append(random_case(rng))
     records = []
     for case in cases:
-        J, res = run_real(case)
+        try:
+            J, res = run_real(case)
+        except tlc.MachineryError:
+            raise
+        except Exception as e:      # the real scorer / chainer raised on a valid segment set: no result exists
+            ctx.violation({"segs": case["segs"], "par": case["par"], "exception": repr(e)},
+                          ["chainer_raised_" + type(e).__name__], "",
+                          what=f"{type(e).__name__} on segs={[(s['rs'], s['re'], s['qs'], s['qe']) for s in case['segs'] if not s['empty']]} par={case['par']}")
+            continue
         rec = {"segs": case["segs"], "par": case["par"], "J": J, "res": res}
         records.append(rec)
         ne = [s for s in case["segs"] if not s["empty"]]
